@@ -68,7 +68,10 @@ JudgeSign(e) ==
              ELSE <<"deterministic signature differs from the reference in piece (0: R || SIG_FORS, j+1: XMSS layer j)", ToString(e.piece)>>
       ELSE IF e.det /\ SigR(p, sig) # PRF_msg(p, SK.prf, SK.pkseed, Mp) THEN
              <<"R differs from PRF_msg(SK.prf, PK.seed, M')", Hex(PRF_msg(p, SK.prf, SK.pkseed, Mp))>>
-      ELSE IF ~slh_verify(p, M, sig, ctx, PK) THEN <<"a signature produced by Sign does not verify under FIPS 205 slh_verify">>
+      ELSE IF ~CheapPartsOK(p, H_msg(p, SigR(p, sig), PK.seed, PK.root, Mp), SK, sig) THEN
+             (IF slh_verify(p, M, sig, ctx, PK)
+              THEN <<"signature verifies but a FORS secret value or a WOTS+ signature in it is not the one of SK.seed">>
+              ELSE <<"a signature produced by Sign does not verify under FIPS 205 slh_verify">>)
       ELSE <<>>
 
 JudgeSignInternal(e) ==
@@ -84,7 +87,8 @@ JudgeSignInternal(e) ==
       ELSE IF e.full THEN
              LET want == slh_sign_internal(p, M, SK, rnd)
              IN  IF sig = want THEN <<>> ELSE Differ("signature differs from slh_sign_internal(M, SK, addrnd)", sig, want, p.n)
-      ELSE IF ~slh_verify_internal(p, M, sig, PKofSK(SK)) THEN <<"slh_sign_internal output does not verify under slh_verify_internal">>
+      ELSE IF ~CheapPartsOK(p, H_msg(p, SigR(p, sig), SK.pkseed, SK.pkroot, M), SK, sig) THEN
+             <<"slh_sign_internal output does not verify under slh_verify_internal, or a FORS secret value / WOTS+ signature is not the one of SK.seed">>
       ELSE <<>>
 
 \* Signing / verifying with a forced digest (hook: H_msg returns e.digest, PRF_msg returns e.r; F, H, T_l, PRF real):
@@ -98,11 +102,13 @@ JudgeSignDigest(e) ==
       ELSE IF e.err THEN <<"signInternal failed on a chosen digest", e.what>>
       ELSE IF Len(sig) # SigLen(p) THEN <<"signature length", ToString(SigLen(p))>>
       ELSE IF SigR(p, sig) # HexToBytes(e.r) THEN <<"R is not the output of PRF_msg", e.r>>
-      ELSE IF e.full THEN
+      ELSE IF e.mode = "full" THEN
              LET want == HexToBytes(e.r) \o SignDigest(p, dg, SK)
              IN  IF sig = want THEN <<>> ELSE Differ("signature differs from Algorithm 19 lines 6-18 for this digest: " \o e.what, sig, want, p.n)
-      ELSE IF ~VerifyDigest(p, dg, SigFORS(p, sig), SigHT(p, sig), PKofSK(SK)) THEN
-             <<"signature for a chosen digest does not verify (Algorithm 20 lines 7-18)", e.what>>
+      ELSE IF e.mode = "fors" /\ ~PieceOfDigestOK(p, dg, HexToBytes(e.r), SK, sig, 0) THEN
+             <<"SIG_FORS differs from fors_sign(md, SK.seed, PK.seed, ADRS) for this digest", e.what>>
+      ELSE IF ~CheapPartsOK(p, dg, SK, sig) THEN
+             <<"signature for a chosen digest does not verify (Algorithm 20 lines 7-18), or a FORS secret value / WOTS+ signature is not the one of SK.seed", e.what>>
       ELSE <<>>
 
 JudgeVerifyDigest(e) ==
